@@ -229,6 +229,14 @@ class Gen:
         k = r.random()
         if not self.kinds or k < (0.6 if self.meta_mode else 0.18):
             return self.leaf()
+        if k > 0.975:
+            # the empty pattern wrapped and then used: every wrapper of Empty must stay neutral
+            e = r.choice([["empty"], "", ["lit", ""]])
+            w = r.choice([["new", "Capture", e], ["new", "Group", e], ["new", "Capture", e, "ne"], ["new", "Optional", e],
+                          ["new", "Concat", e, e], ["new", "Either", e], ["new", "MatchAtStart", e] if False else ["new", "Exactly", e, 3]])
+            return r.choice([["new", "Optional", w], ["new", "Indefinite", w], ["new", "OneOrMore", w], ["op", "*", w, 3],
+                             ["new", "AtLeastAtMost", w, 1, 3], ["op", "+", ["lit", "a"], w], ["new", "Capture", w],
+                             ["new", "FollowedBy", ["lit", "a"], w]]), "general"
         a = self.operand()
         if self.focus is not None and r.random() < 0.45:
             a = ["ref", self.focus]                       # keep working on one object: histories on a shared operand
